@@ -41,6 +41,8 @@ func c01Run(c *fw.Case, env *fw.Env) *fw.Obs {
 	entry := "IngestTable"
 	if p.Cfg.Via == "cli" {
 		entry = "wrgl-commit"
+	} else if p.Cfg.Via == "cli-bf" {
+		entry = "wrgl-commit-branch-file"
 	}
 	res := runIngest(env, c.ID, csvBytes, pkNames, p.Cfg, nil)
 	defer res.Close()
@@ -88,7 +90,7 @@ func c01Run(c *fw.Case, env *fw.Env) *fw.Obs {
 	if cl, d := model.Compare(tc.Rows); cl != "" {
 		o.Violate(cl+"/"+entry+"/"+class, "block read-back (cfg %s): %s", cfgString(p.Cfg), d)
 	}
-	if p.Cfg.Via == "cli" {
+	if p.Cfg.Via == "cli" || p.Cfg.Via == "cli-bf" {
 		// The export is compared with the rows read back from the blocks (already
 		// checked against the model), modulo what re-parsing a CSV does to a cell:
 		// encoding/csv drops a CR that precedes a LF, also inside quoted fields.
@@ -243,8 +245,11 @@ func init() {
 				switch rng.Intn(12) {
 				case 0:
 					cfg.Store = "badger"
-				case 1, 2:
+				case 1, 2, 3:
 					cfg.Via = "cli"
+					if rng.Intn(3) == 0 {
+						cfg.Via, cfg.Delim = "cli-bf", ""
+					}
 					if cfg.Chunks == "auto" {
 						cfg.Chunks = "two"
 					}
